@@ -349,3 +349,414 @@ Proof.
   destruct (tbev e); cbn [length]; [|rewrite Nat.add_0_r in IH; exact IH].
   replace (k + S (length (filter tbev r))) with (k + 1 + length (filter tbev r)) by lia. exact IH.
 Qed.
+
+(* ------------------------------------------------------------------ *)
+(* well-formed programs bring only well-formed names                    *)
+(* ------------------------------------------------------------------ *)
+Definition nl_wf (l : list (dname * nat)) : bool := forallb (fun nl => wf_name (fst nl)) l.
+
+Lemma nl_put_wf n loc l : wf_name n = true -> nl_wf l = true -> nl_wf (nl_put n loc l) = true.
+Proof.
+  intros W. induction l as [|[m x] r IH]; cbn [nl_put nl_wf forallb fst]; intros H.
+  - now rewrite W.
+  - apply andb_true_iff in H as [H1 H2]. destruct (dname_eqb n m); cbn [forallb fst]; rewrite H1; [exact H2 | exact (IH H2)].
+Qed.
+Lemma nl_dict_wf l : nl_wf l = true -> nl_wf (nl_dict l) = true.
+Proof.
+  unfold nl_dict. assert (G : forall acc, nl_wf acc = true -> nl_wf l = true ->
+                              nl_wf (fold_left (fun d nl => nl_put (fst nl) (snd nl) d) l acc) = true).
+  { induction l as [|[n loc] r IH]; intros acc Ha Hl; [exact Ha|]. cbn [fold_left fst snd].
+    cbn [nl_wf forallb fst] in Hl. apply andb_true_iff in Hl as [H1 H2]. apply IH; [apply nl_put_wf; assumption | exact H2]. }
+  apply G. reflexivity.
+Qed.
+
+Definition evs_wf (l : list devent) : Prop := Forall (fun e => ev_wf e = true) l.
+Lemma evs_wf_app a b : evs_wf a -> evs_wf b -> evs_wf (a ++ b).
+Proof. intros; apply Forall_app; split; assumption. Qed.
+Lemma evs_wf_flat_map {A} (f : A -> list devent) l : (forall a, In a l -> evs_wf (f a)) -> evs_wf (flat_map f l).
+Proof.
+  induction l as [|a r IH]; intros H; cbn [flat_map]; [constructor|].
+  apply evs_wf_app; [apply H; left; reflexivity | apply IH; intros; apply H; right; assumption].
+Qed.
+Lemma exc_events_wf r : evs_wf (exc_events r).
+Proof. unfold exc_events, evs_wf. apply Forall_forall. intros e H. apply in_map_iff in H as (x & <- & _). reflexivity. Qed.
+Lemma mm_events_wf mm : nl_wf mm = true -> evs_wf (mm_events mm).
+Proof.
+  intros H. apply nl_dict_wf in H. unfold mm_events, evs_wf, nl_wf in *. rewrite forallb_forall in H.
+  apply Forall_forall. intros e He. apply in_map_iff in He as (x & <- & Hx). exact (H x Hx).
+Qed.
+Lemma fx_events_wf fx : nl_wf (fx_details fx) = true -> evs_wf (fx_events fx).
+Proof.
+  intros H. apply nl_dict_wf in H. unfold fx_events, evs_wf, nl_wf in *. rewrite forallb_forall in H.
+  apply Forall_forall. intros e He. apply in_map_iff in He as (x & <- & Hx). exact (H x Hx).
+Qed.
+
+Definition acts_wf (l : list act) : bool := forallb wf_names_act l.
+Lemma wf_names_cleanup t body : wf_names_act (ACleanup t body) = acts_wf body.
+Proof. cbn [wf_names_act]. induction body as [|x r IH]; [reflexivity|]. cbn [acts_wf forallb]. now rewrite IH. Qed.
+
+Lemma act_events_wf a : wf_names_act a = true -> evs_wf (act_events a).
+Proof.
+  destruct a as [n loc | loc v | mm | mm | t body | x v | fx | h | | c o | r p | e]; cbn [wf_names_act act_events]; intros H;
+    try (repeat constructor; fail).
+  - repeat constructor. exact H.
+  - apply evs_wf_app; [now apply mm_events_wf | repeat constructor].
+  - now apply mm_events_wf.
+  - destruct (fx_fail fx); [now apply fx_events_wf | constructor].
+  - destruct p as [e|]; [destruct (isinstance e CFail)|]; repeat constructor.
+Qed.
+Lemma executed_incl l : incl (executed l) l.
+Proof.
+  induction l as [|a r IH]; cbn [executed]; [intros ? []|]. destruct (act_raise a).
+  - intros x [<-|[]]. left; reflexivity.
+  - intros x [<-|H]; [left; reflexivity | right; apply IH; exact H].
+Qed.
+Lemma acts_events_wf l : acts_wf l = true -> evs_wf (acts_events l).
+Proof.
+  intros H. unfold acts_events. apply evs_wf_flat_map. intros a Ha. apply act_events_wf.
+  unfold acts_wf in H. rewrite forallb_forall in H. apply H. apply executed_incl. exact Ha.
+Qed.
+
+Definition entry_wf (e : entry) : bool :=
+  match e with
+  | EUser _ b => acts_wf b
+  | EGather fx | EFx fx => nl_wf (fx_details fx)
+  | ERestore _ => true
+  end.
+Lemma pending_wf_list l :
+  Forall (fun a => wf_names_act a = true -> forallb entry_wf (act_entries a) = true) l ->
+  acts_wf l = true -> forallb entry_wf (pending l) = true.
+Proof.
+  induction 1 as [|x r Hx Hr IH]; intros W; [reflexivity|]. cbn [pending].
+  cbn [acts_wf forallb] in W. apply andb_true_iff in W as [W1 W2].
+  destruct (act_raise x); [reflexivity|]. rewrite forallb_app, (IH W2), (Hx W1). reflexivity.
+Qed.
+Lemma act_entries_wf a : wf_names_act a = true -> forallb entry_wf (act_entries a) = true.
+Proof.
+  induction a as [t body IH | a Ha] using act_nest_ind; intros W.
+  - rewrite act_entries_cleanup. rewrite wf_names_cleanup in W. cbn [forallb entry_wf]. rewrite W.
+    apply pending_wf_list; assumption.
+  - destruct a; try (exfalso; eapply Ha; reflexivity); try reflexivity.
+    cbn [act_entries]. destruct (fixture_raise fx); [reflexivity|]. cbn [forallb entry_wf wf_names_act] in *.
+    fold (nl_wf (fx_details fx)) in W. now rewrite W.
+Qed.
+Lemma pending_wf l : acts_wf l = true -> forallb entry_wf (pending l) = true.
+Proof. apply pending_wf_list. apply Forall_forall. intros a _. apply act_entries_wf. Qed.
+
+Lemma entry_events_wf e : entry_wf e = true -> evs_wf (entry_events e).
+Proof.
+  destruct e as [t b | a | fx | fx]; cbn [entry_wf entry_events]; intros H.
+  - apply evs_wf_app; [now apply acts_events_wf | apply exc_events_wf].
+  - constructor.
+  - now apply fx_events_wf.
+  - apply exc_events_wf.
+Qed.
+
+Lemma events_wf i : wf i = true -> evs_wf (events (i_prog i)).
+Proof.
+  unfold wf. rewrite !andb_true_iff. intros [[[_ W1] W2] W3]. set (p := i_prog i) in *.
+  fold (acts_wf (snd (p_setup p))) in W1. fold (acts_wf (snd (p_body p))) in W2. fold (acts_wf (snd (p_teardown p))) in W3.
+  unfold events. destruct (skipped p); [constructor|].
+  assert (CE : forallb entry_wf (cleanup_entries p) = true).
+  { unfold cleanup_entries. destruct (setup_returns p); rewrite ?forallb_app, ?pending_wf by assumption; reflexivity. }
+  repeat apply evs_wf_app; try apply exc_events_wf; try (apply acts_events_wf; assumption).
+  - destruct (setup_returns p); [|constructor].
+    unfold body_events. repeat apply evs_wf_app; try apply exc_events_wf; try (apply acts_events_wf; assumption).
+    destruct (p_xfail p); [|constructor]. destruct (acts_raise _) as [e|]; [|constructor].
+    destruct (isinstance e CException); repeat constructor.
+  - apply evs_wf_flat_map. intros e He. apply entry_events_wf. rewrite forallb_forall in CE. exact (CE e He).
+Qed.
+
+(* ------------------------------------------------------------------ *)
+(* the handler that reports: which exception, whether it records a skip reason *)
+(* ------------------------------------------------------------------ *)
+Lemma table_reason :
+  forallb (fun h => Bool.eqb (h_reason h) (match h_out h with Some OSkip => true | _ => false end)) generated_handlers = true.
+Proof. vm_compute. reflexivity. Qed.
+Lemma table_signals :
+  forallb (fun h => match cls_of_hclass h with
+                    | Some d => match standard_outcome d with OFail | OErr => false | _ => true end
+                    | None => true
+                    end) no_traceback_classes = true.
+Proof. vm_compute. reflexivity. Qed.
+
+Lemma choose_reported p : choose (handlers_of (user_handlers p)) (raised p) = reported p.
+Proof.
+  unfold reported. destruct (raised p) as [|x r] eqn:E; [reflexivity|]. rewrite <- E.
+  rewrite choose_spec by (rewrite E; discriminate).
+  rewrite (find_ext' _ (fun e => negb (claimed p e))); [rewrite E; reflexivity|].
+  intros e. now rewrite claims_handlers_of, uclaimed_claimed.
+Qed.
+
+(* the handler found for [e] records the skip reason iff nobody inserted a handler for it and it
+   stands for a skip by its class *)
+Lemma lookup_reason p e :
+  match lookup (handlers_of (user_handlers p)) e with
+  | Some h => h_reason h
+  | None => false
+  end = match user_claim p e with
+        | Some _ => false
+        | None => match standard_outcome (cls_of e) with OSkip => true | _ => false end
+        end.
+Proof.
+  unfold lookup, handlers_of, user_claim. rewrite find_app, find_map. cbn [user_handler h_cls].
+  destruct (find (fun a => isinstance e (fst a)) (user_handlers p)) as [co|]; cbn [option_map]; [reflexivity|].
+  pose proof (table_outcome_spec (cls_of e)) as T. unfold table_outcome in T.
+  change (fun h => subclass (cls_of e) (h_cls h)) with (fun h => isinstance e (h_cls h)) in T.
+  destruct (find (fun h => isinstance e (h_cls h)) generated_handlers) as [h|] eqn:F.
+  - pose proof table_reason as TR. rewrite forallb_forall in TR. apply find_some in F as [Hin _].
+    specialize (TR h Hin). apply eqb_prop in TR. rewrite TR, T. reflexivity.
+  - assert (N : isinstance e CException = false).
+    { rewrite <- generated_claims, existsb_find, F. reflexivity. }
+    rewrite (not_exception_is_error _ N). reflexivity.
+Qed.
+
+(* ------------------------------------------------------------------ *)
+(* the trace of a run                                                   *)
+(* ------------------------------------------------------------------ *)
+Definition not_out (e : tev) : Prop := match e with TOut _ _ => False | _ => True end.
+Lemma no_out_of_calls t : calls t = [TStart] -> Forall not_out t.
+Proof.
+  intros H. apply Forall_forall. intros e He. destruct e; cbn; auto.
+  assert (I : In (TOut o d) (calls t)) by (apply filter_In; split; [exact He | reflexivity]).
+  rewrite H in I. destruct I as [I|[]]. discriminate.
+Qed.
+Lemma before_out_app a b : Forall not_out a -> before_out (a ++ b) = a ++ before_out b.
+Proof. induction 1 as [|e r He Hr IH]; [reflexivity|]. destruct e; cbn in *; try contradiction; now rewrite IH. Qed.
+Lemma after_out_app a b : Forall not_out a -> after_out (a ++ b) = after_out b.
+Proof. induction 1 as [|e r He Hr IH]; [reflexivity|]. destruct e; cbn in *; try contradiction; exact IH. Qed.
+Lemma first_out_app a b : Forall not_out a -> first_out (a ++ b) = first_out b.
+Proof. induction 1 as [|e r He Hr IH]; [reflexivity|]. destruct e; cbn in *; try contradiction; exact IH. Qed.
+Lemma n_outs_app a b : Forall not_out a -> n_outs (a ++ b) = n_outs b.
+Proof.
+  unfold n_outs. induction 1 as [|e r He Hr IH]; [reflexivity|]. destruct e; cbn in *; try contradiction; exact IH.
+Qed.
+
+(* the detail part of a fresh instance *)
+Definition d0 : dst := {| d_dets := []; d_tbgen := 0; d_cells := []; d_onexc := []; d_calls := [] |}.
+Definition dfinal (p : prog) : dst := prun (events p) d0.
+(* the dict handed over with the outcome *)
+Definition dreport (p : prog) : dst :=
+  match skip_reason p with Some r => d_put n_reason (CReason r) (dfinal p) | None => dfinal p end.
+Definition delivered (p : prog) : list (dname * ocontent) :=
+  match p_skip p with
+  | Some r => [(n_reason, OReason (Some r))]
+  | None => details_at (dreport p)
+  end.
+
+Lemma skip_reason_none p : reported p = None -> skip_reason p = None.
+Proof. unfold skip_reason. now intros ->. Qed.
+
+(* what the model observes, in closed form: one outcome call carrying [delivered p], preceded by
+   all handler calls *)
+Theorem model_obs i :
+  model i = {| o_outs := 1;
+               o_details := map (fun nc => (fst (fst nc), snd nc)) (delivered (i_prog i));
+               o_calls := d_calls (dfinal (i_prog i));
+               o_late := 0 |}.
+Proof.
+  unfold model, run. set (p := i_prog i).
+  pose proof (run_from_spec p (init p [])) as H. cbv zeta in H.
+  destruct H as (s & tr0 & Rn & _ & _ & _ & _ & _ & _ & T & C & HC & _).
+  rewrite Rn. cbn [tr force uh init calls filter app] in *.
+  rewrite collected_run_fresh, run_events_fresh in *.
+  change (proj (reset (init p []))) with d0 in *. fold (dfinal p) in *. fold (user_handlers p) in *.
+  pose proof (no_out_of_calls _ C) as NO.
+  (* the outcome call *)
+  assert (O : exists o, fst (fst (conclude p (handlers_of (user_handlers p)) (raised p) (dfinal p)))
+                        = [TOut o (delivered p)]).
+  { unfold conclude, delivered, dreport. destruct (p_skip p) as [r|]; [eexists; reflexivity|].
+    rewrite choose_reported. destruct (reported p) as [e|] eqn:Rp.
+    - pose proof (lookup_reason p e) as LR. pose proof (lookup_handlers_of (user_handlers p) e) as LO.
+      unfold skip_reason. rewrite Rp.
+      destruct (lookup (handlers_of (user_handlers p)) e) as [h|]; cbn [fst].
+      + rewrite LO. eexists. f_equal. f_equal. rewrite LR.
+        destruct (user_claim p e); [reflexivity|]. destruct (standard_outcome (cls_of e)); reflexivity.
+      + rewrite LO. eexists. f_equal. f_equal.
+        destruct (user_claim p e); [reflexivity|]. destruct (standard_outcome (cls_of e)); try reflexivity. discriminate.
+    - rewrite (skip_reason_none p Rp). eexists; reflexivity. }
+  destruct O as [o O]. rewrite O in T. rewrite T.
+  rewrite n_outs_app, first_out_app, before_out_app, after_out_app by exact NO.
+  cbn [app n_outs filter length first_out before_out after_out]. rewrite app_nil_r.
+  f_equal. exact HC.
+Qed.
+
+(* ------------------------------------------------------------------ *)
+(* the model meets the statement outside F14                            *)
+(* ------------------------------------------------------------------ *)
+Lemma inv0 : Inv x0 d0 0.
+Proof. constructor; try reflexivity; [constructor | intros []]. Qed.
+
+Lemma inv_final i :
+  wf i = true -> x_f14 (xrun (i_prog i)) = false ->
+  Inv (xrun (i_prog i)) (dfinal (i_prog i)) (length (filter tbev (events (i_prog i)))).
+Proof. intros W F. exact (inv_run _ _ _ _ inv0 (events_wf i W) F). Qed.
+
+(* the handler calls do not depend on the details at all *)
+Lemma calls_run l : forall x d,
+  x_onexc x = d_onexc d -> x_calls x = d_calls d ->
+  x_onexc (fold_left xstep l x) = d_onexc (prun l d) /\ x_calls (fold_left xstep l x) = d_calls (prun l d).
+Proof.
+  induction l as [|e r IH]; intros x d H1 H2; [split; assumption|]. cbn [fold_left prun]. apply IH.
+  - destruct e; cbn [xstep papply xgen xmark d_put x_onexc d_onexc]; try assumption; try (now rewrite H1).
+    + unfold d_tb. destruct (tb_label _ _ _ _). exact H1.
+    + destruct (no_traceback c); [exact H1|]. unfold d_tb. destruct (tb_label _ _ _ _). exact H1.
+  - destruct e; cbn [xstep papply xgen xmark d_put x_calls d_calls]; try assumption.
+    + unfold d_tb. destruct (tb_label _ _ _ _). exact H2.
+    + destruct (no_traceback c); [now rewrite H1, H2|]. unfold d_tb. destruct (tb_label _ _ _ _).
+      cbn [d_calls d_onexc]. now rewrite H1, H2.
+Qed.
+Theorem calls_final p : d_calls (dfinal p) = x_calls (xrun p).
+Proof. symmetry. apply (calls_run (events p) x0 d0); reflexivity. Qed.
+
+Lemma resolve_agree x d : x_cells x = d_cells d -> forall c, xresolve x c = dresolve d c.
+Proof. intros H c. destruct c; cbn; unfold xcell, dcell; rewrite ?H; reflexivity. Qed.
+
+(* a traceback is generated for everything that needs one, and only for exceptions and assertions *)
+Lemma needs_tbev e : needs_tb e = true -> tbev e = true.
+Proof.
+  destruct e as [| | | | | | | | c]; cbn [needs_tb tbev]; try discriminate; try reflexivity. intros H.
+  destruct (no_traceback c) eqn:N; [|reflexivity]. exfalso. unfold no_traceback in N.
+  apply existsb_exists in N as (h & Hin & Hh). pose proof table_signals as T. rewrite forallb_forall in T.
+  specialize (T h Hin). destruct (cls_of_hclass h) as [d|]; [|discriminate].
+  apply cls_eqb_spec in Hh. subst d. destruct (standard_outcome c); discriminate.
+Qed.
+Lemma tbev_may e : tbev e = true -> may_tb e = true.
+Proof. destruct e; cbn; try discriminate; reflexivity. Qed.
+Lemma filter_le {A} (f g : A -> bool) l : (forall a, f a = true -> g a = true) -> length (filter f l) <= length (filter g l).
+Proof.
+  intros H. induction l as [|a r IH]; [apply le_n|]. cbn [filter]. destruct (f a) eqn:E.
+  - rewrite (H a E). cbn [length]. lia.
+  - destruct (g a); cbn [length]; lia.
+Qed.
+
+(* the dict delivered against the list expected (not skip-decorated) *)
+Lemma delivered_R i :
+  wf i = true -> x_f14 (xrun (i_prog i)) = false ->
+  let p := i_prog i in
+  let x := xrun p in
+  x_cells x = d_cells (dreport p)
+  /\ R (x_gen x) (length (filter tbev (events p)))
+       (match skip_reason p with Some r => kput n_reason (CReason r) (x_list x) | None => x_list x end)
+       (d_dets (dreport p)).
+Proof.
+  intros W F. cbv zeta. destruct (inv_final i W F) as [I1 I2 I3 I4 I5]. unfold dreport.
+  destruct (skip_reason (i_prog i)) as [r|]; cbn [d_put d_cells d_dets]; split; try assumption.
+  apply R_put; [exact I4 | exact I5 | reflexivity].
+Qed.
+
+Lemma details_out D :
+  map (fun nc : dname * ocontent => (fst (fst nc), snd nc)) (details_at D) = map (out_d (dresolve D)) (d_dets D).
+Proof. unfold details_at. rewrite map_map. reflexivity. Qed.
+Lemma expected_out p :
+  p_skip p = None ->
+  expected_details p
+  = map (out_x (xresolve (xrun p)))
+        (match skip_reason p with Some r => kput n_reason (CReason r) (x_list (xrun p)) | None => x_list (xrun p) end).
+Proof. unfold expected_details. intros ->. reflexivity. Qed.
+
+Theorem model_meets_spec i : wf i = true -> finding_F14 i = false -> spec_okb i (model i) = true.
+Proof.
+  intros W F. unfold spec_okb. cbv zeta. rewrite model_obs. cbn [o_outs o_details o_calls o_late].
+  set (p := i_prog i) in *. rewrite calls_final.
+  rewrite (proj2 (list_eqb_spec call_eqb call_eqb_spec _ _) eq_refl). cbn [Nat.eqb andb]. rewrite !andb_true_r.
+  unfold finding_F14 in F. fold p in F.
+  destruct (p_skip p) as [r|] eqn:Sk.
+  - (* skip-decorated: the reason *)
+    assert (E : events p = []) by (unfold events, skipped; now rewrite Sk).
+    unfold expected_details, delivered. rewrite Sk, E. cbn.
+    rewrite Nat.eqb_refl. reflexivity.
+  - assert (E : skipped p = false) by (unfold skipped; now rewrite Sk). rewrite E in F. cbn [negb andb] in F.
+    destruct (delivered_R i W F) as [Hc HR]. fold p in Hc, HR.
+    rewrite (expected_out p Sk). unfold delivered. rewrite Sk, details_out.
+    set (x := xrun p) in *.
+    set (xl := match skip_reason p with Some r => kput n_reason (CReason r) (x_list x) | None => x_list x end) in *.
+    assert (Ex : map (out_x (xresolve x)) xl = map (out_x (dresolve (dreport p))) xl).
+    { apply map_ext. intros e. unfold out_x. now rewrite (resolve_agree x (dreport p) Hc). }
+    rewrite Ex, (R_tbs _ _ _ _ (dreport p) HR).
+    apply andb_true_iff; split; [apply andb_true_iff; split|].
+    + apply forallb_forall. intros d _. apply Nat.leb_le. exact (R_count _ _ _ _ _ HR d).
+    + apply Nat.leb_le. apply filter_le, needs_tbev.
+    + apply Nat.leb_le. apply filter_le, tbev_may.
+Qed.
+
+(* ------------------------------------------------------------------ *)
+(* the clauses one by one                                               *)
+(* ------------------------------------------------------------------ *)
+(* C05_carried: every expected detail arrives as often as expected, and the outcome carries exactly
+   one traceback detail per traceback the machine generates *)
+Theorem carried i :
+  wf i = true -> finding_F14 i = false ->
+  (forall d, count d (expected_details (i_prog i)) <= count d (o_details (model i)))
+  /\ length (filter is_tb (o_details (model i))) = length (filter tbev (events (i_prog i))).
+Proof.
+  intros W F. rewrite model_obs. cbn [o_details]. set (p := i_prog i) in *.
+  unfold finding_F14 in F. fold p in F.
+  destruct (p_skip p) as [r|] eqn:Sk.
+  - assert (E : events p = []) by (unfold events, skipped; now rewrite Sk).
+    unfold expected_details, delivered. rewrite Sk, E. cbn. split; [intros d; apply le_n | reflexivity].
+  - assert (E : skipped p = false) by (unfold skipped; now rewrite Sk). rewrite E in F. cbn [negb andb] in F.
+    destruct (delivered_R i W F) as [Hc HR]. fold p in Hc, HR.
+    rewrite (expected_out p Sk). unfold delivered. rewrite Sk, details_out.
+    set (x := xrun p) in *.
+    set (xl := match skip_reason p with Some r => kput n_reason (CReason r) (x_list x) | None => x_list x end) in *.
+    assert (Ex : map (out_x (xresolve x)) xl = map (out_x (dresolve (dreport p))) xl).
+    { apply map_ext. intros e. unfold out_x. now rewrite (resolve_agree x (dreport p) Hc). }
+    rewrite Ex. split; [intros d; exact (R_count _ _ _ _ _ HR d) | exact (R_tbs _ _ _ _ (dreport p) HR)].
+Qed.
+
+(* C05_no_clobber: whatever the dict holds, a generated detail (mismatch, expectation, fixture,
+   traceback) only ever appends to it *)
+Definition generated_ev (e : devent) : bool := match e with DUser _ _ | DReason _ => false | _ => true end.
+Theorem no_clobber d e : generated_ev e = true -> exists l, d_dets (papply d e) = d_dets d ++ l.
+Proof.
+  assert (T : exists l, d_dets (d_tb d) = d_dets d ++ l).
+  { destruct (d_tb_spec d) as (lab & T1 & T2 & _). rewrite T1, (dput_fresh _ _ _ T2). eexists; reflexivity. }
+  destruct e as [n loc | loc v | n loc | | n loc | | r | h | c]; cbn [generated_ev papply d_put d_dets]; try discriminate; intros _;
+    try (exists []; now rewrite app_nil_r);
+    try (rewrite (dput_fresh _ _ _ (proj1 (unique_name_fresh _ _))); eexists; reflexivity).
+  - exact T.
+  - destruct (no_traceback c); [exists []; now rewrite app_nil_r | exact T].
+Qed.
+
+(* C05_on_exception: for EVERY program - one outcome call; each handler called once per exception
+   caught after its registration, in order; every call before the outcome *)
+Theorem on_exception i :
+  o_outs (model i) = 1 /\ o_calls (model i) = x_calls (xrun (i_prog i)) /\ o_late (model i) = 0.
+Proof. rewrite model_obs. cbn [o_outs o_calls o_late]. rewrite calls_final. auto. Qed.
+
+(* C05_bytes_at_report: the result reads the dict as it is when the outcome is reported - a lazy
+   content yields what its cell holds then, a gathered fixture detail what the cell held when it
+   was gathered *)
+Theorem bytes_at_report :
+  (forall i, o_details (model i) = map (fun nc => (fst (fst nc), snd nc)) (delivered (i_prog i)))
+  /\ (forall p, p_skip p = None ->
+        delivered p = map (fun nc => (fst nc, dresolve (dreport p) (snd nc))) (d_dets (dreport p))
+        /\ d_cells (dreport p) = d_cells (dfinal p))
+  /\ (forall D loc v, dresolve D (CLazy loc) = OBytes (dcell loc D) /\ dresolve D (CSnap v) = OBytes v)
+  /\ (forall d n loc, In (unique_name n (d_dets d), CSnap (dcell loc d)) (d_dets (papply d (DFx n loc)))).
+Proof.
+  split; [intros i; now rewrite model_obs|]. split; [|split].
+  - intros p Sk. unfold delivered, dreport. rewrite Sk. split; [reflexivity|]. destruct (skip_reason p); reflexivity.
+  - intros; split; reflexivity.
+  - intros d n loc. cbn [papply d_put d_dets].
+    rewrite (dput_fresh _ _ _ (proj1 (unique_name_fresh n (d_dets d)))). apply in_or_app. right. left. reflexivity.
+Qed.
+
+(* C05_unique_fresh *)
+Theorem unique_fresh :
+  (forall n d, dmem (unique_name n d) d = false /\ fst (unique_name n d) = fst n)
+  /\ (forall d id, dmem (fst (tb_label (length d) id n_traceback d)) d = false
+                   /\ fst (fst (tb_label (length d) id n_traceback d)) = fst n_traceback).
+Proof. exact (conj unique_name_fresh tb_label_spec). Qed.
+
+(* ------------------------------------------------------------------ *)
+(* known finding F14: inside the delimited class the statement is false of the model *)
+(* ------------------------------------------------------------------ *)
+Definition witness_F14 : input :=
+  {| i_prog := {| p_skip := None; p_xfail := false;
+                  p_setup := (1, [ACleanup 10 [ADetail n_traceback 1]]); p_up_setup := true;
+                  p_body := (2, [ARaise (Exc CFail (Some 1))]);
+                  p_teardown := (3, []); p_up_teardown := true; p_handlers := [] |} |}.
+Theorem refuted_F14 : exists i, wf i = true /\ finding_F14 i = true /\ spec_okb i (model i) = false.
+Proof. exists witness_F14. vm_compute. auto. Qed.
